@@ -40,6 +40,19 @@ func (s *Sim) served() (lo, hi basics.Round) {
 	return s.led.LatestTrackerCommitted(), s.led.Latest()
 }
 
+// lookupErr judges a failed lookup for round r: it is a violation only if r is still inside the
+// window the ledger serves NOW (the window only moves forward, so then it also was when the call ran).
+// A tracker commit that completes while queries are in flight (queries during a parked commit) may
+// legitimately move the lower edge past r.
+func (s *Sim) lookupErr(where, call string, r basics.Round, err error) {
+	lo, hi := s.served()
+	if r < lo || r > hi {
+		s.stat("lookup_round_left_window", 1)
+		return
+	}
+	s.violate("C08", "lookup-error-in-window", "", fmt.Sprintf("%s: %s failed although the ledger serves rounds [%d,%d]: %v", where, call, lo, hi, err))
+}
+
 // checkAccount compares every account-level lookup for addr at round r with the reference.
 func (s *Sim) checkAccount(r basics.Round, addr basics.Address, where string) {
 	st := s.states[r]
@@ -50,7 +63,7 @@ func (s *Sim) checkAccount(r basics.Round, addr basics.Address, where string) {
 	got, _, err := s.led.LookupWithoutRewards(r, addr)
 	s.stat("lookup_checked", 1)
 	if err != nil {
-		s.violate("C08", "lookup-error-in-window", "", fmt.Sprintf("%s: LookupWithoutRewards(r=%d, %s) failed although the ledger serves rounds [%d,%d]: %v", where, r, shortAddr(addr), s.led.LatestTrackerCommitted(), s.led.Latest(), err))
+		s.lookupErr(where, fmt.Sprintf("LookupWithoutRewards(r=%d, %s)", r, shortAddr(addr)), r, err)
 		return
 	}
 	if got != want {
@@ -59,7 +72,7 @@ func (s *Sim) checkAccount(r basics.Round, addr basics.Address, where string) {
 	}
 	gotR, _, wo, err := s.led.LookupAccount(r, addr)
 	if err != nil {
-		s.violate("C08", "lookup-error-in-window", "", fmt.Sprintf("%s: LookupAccount(r=%d, %s): %v", where, r, shortAddr(addr), err))
+		s.lookupErr(where, fmt.Sprintf("LookupAccount(r=%d, %s)", r, shortAddr(addr)), r, err)
 		return
 	}
 	wantR := st.withRewards(want)
@@ -77,7 +90,7 @@ func (s *Sim) checkAsset(r basics.Round, k resKey, where string) {
 	got, err := s.led.LookupAsset(r, k.Addr, basics.AssetIndex(k.Idx))
 	s.stat("lookup_checked", 1)
 	if err != nil {
-		s.violate("C08", "lookup-error-in-window", "", fmt.Sprintf("%s: LookupAsset(r=%d, %s, %d): %v", where, r, shortAddr(k.Addr), k.Idx, err))
+		s.lookupErr(where, fmt.Sprintf("LookupAsset(r=%d, %s, %d)", r, shortAddr(k.Addr), k.Idx), r, err)
 		return
 	}
 	if encAssetParams(got.AssetParams) != encAssetParams(want.Params) || encHolding(got.AssetHolding) != encHolding(want.Holding) {
@@ -95,7 +108,7 @@ func (s *Sim) checkApp(r basics.Round, k resKey, where string) {
 	got, err := s.led.LookupApplication(r, k.Addr, basics.AppIndex(k.Idx))
 	s.stat("lookup_checked", 1)
 	if err != nil {
-		s.violate("C08", "lookup-error-in-window", "", fmt.Sprintf("%s: LookupApplication(r=%d, %s, %d): %v", where, r, shortAddr(k.Addr), k.Idx, err))
+		s.lookupErr(where, fmt.Sprintf("LookupApplication(r=%d, %s, %d)", r, shortAddr(k.Addr), k.Idx), r, err)
 		return
 	}
 	if encAppParams(got.AppParams) != encAppParams(want.Params) || encLocal(got.AppLocalState) != encLocal(want.Local) {
@@ -113,7 +126,7 @@ func (s *Sim) checkKv(r basics.Round, key string, where string) {
 	got, err := s.led.LookupKv(r, key)
 	s.stat("lookup_checked", 1)
 	if err != nil {
-		s.violate("C08", "lookup-error-in-window", "", fmt.Sprintf("%s: LookupKv(r=%d, %q): %v", where, r, key, err))
+		s.lookupErr(where, fmt.Sprintf("LookupKv(r=%d, %q)", r, key), r, err)
 		return
 	}
 	if (got == nil) != !ok || !bytes.Equal(got, want) {
@@ -130,7 +143,7 @@ func (s *Sim) checkCreator(r basics.Round, ck creatKey, where string) {
 	got, gok, err := s.led.GetCreatorForRound(r, ck.Idx, ck.Type)
 	s.stat("lookup_checked", 1)
 	if err != nil {
-		s.violate("C08", "lookup-error-in-window", "", fmt.Sprintf("%s: GetCreatorForRound(r=%d, %d): %v", where, r, ck.Idx, err))
+		s.lookupErr(where, fmt.Sprintf("GetCreatorForRound(r=%d, %d)", r, ck.Idx), r, err)
 		return
 	}
 	if gok != ok || got != want {
@@ -146,6 +159,10 @@ func (s *Sim) checkTotals(r basics.Round, where string) {
 	}
 	got, err := s.led.Totals(r)
 	if err != nil {
+		if lo, hi := s.served(); r < lo || r > hi {
+			s.stat("lookup_round_left_window", 1)
+			return
+		}
 		s.violate("C12", "totals-error-in-window", "", fmt.Sprintf("%s: Totals(%d) failed inside the served window: %v", where, r, err))
 		return
 	}
